@@ -168,7 +168,9 @@ type Scenario struct {
 	CacheTimeS int      `json:"cache_time_s"`
 	DB         []string `json:"db"`
 	Pool       []string `json:"pool"`
-	Ops        []Op     `json:"ops"`
+	// FilteringOff switches rule-list filtering off (the lookups stay on).
+	FilteringOff bool `json:"filtering_off,omitempty"`
+	Ops          []Op `json:"ops"`
 }
 
 var (
@@ -226,6 +228,7 @@ func Gen(t *rapid.T, tier string) any {
 	sc := &Scenario{}
 	sc.Suffix = rapid.SampledFrom(suffixes).Draw(t, "suffix")
 	sc.Slot = rapid.SampledFrom([]string{"safebrowsing", "parental"}).Draw(t, "slot")
+	sc.FilteringOff = rapid.IntRange(0, 3).Draw(t, "filtering_off") == 0
 	switch rapid.IntRange(0, 5).Draw(t, "cache_kind") {
 	case 0, 1:
 		sc.CacheSize = 0 // unlimited
@@ -974,7 +977,7 @@ func Run(t *testing.T, scAny any, c *kernel.Ctx) error {
 		up := &env.Upstream{Addr: "sim-upstream:53", Answer: env.DefaultAnswer, Latency: 5 * time.Millisecond}
 		cfg := &dnsnode.Config{Dir: dir, ListServer: env.NewListServer(), Upstream: up, UpTimeout: 2 * time.Second}
 		cfg.Filtering = filtering.Config{
-			ProtectionEnabled: true, FilteringEnabled: true,
+			ProtectionEnabled: true, FilteringEnabled: !sc.FilteringOff,
 			SafeBrowsingEnabled: sc.Slot == "safebrowsing", ParentalEnabled: sc.Slot == "parental",
 			SafeBrowsingBlockHost: sbBlockIP, ParentalBlockHost: parBlockIP,
 			FiltersUpdateIntervalHours: 24, CacheTime: 30, BlockedResponseTTL: 10,
